@@ -15,7 +15,7 @@ var SliceSort = &Sort{Kind: KDT, Name: "Slice", Fields: []DTField{
 
 // String value: immutable (arr, len); bytes as Int
 var StrSort = &Sort{Kind: KDT, Name: "Str", Fields: []DTField{
-	{"str_arr", ArrayOf(SInt, SInt)}, {"str_len", SInt}}}
+	{"str_arr", ArrayOf(SInt, SInt)}, {"str_off", SInt}, {"str_len", SInt}}}
 
 // Interface value: (dynamic type tag, payload reference/opaque Int)
 var IfaceSort = &Sort{Kind: KDT, Name: "Iface", Fields: []DTField{
